@@ -4,9 +4,17 @@ NOTES = ("Technique family: static analysis only. Every check parses the "
          "current /repo/ebpfcat/*.py with the ast module, derives "
          "class-hierarchy, CFG, reaching-definition and folded-table facts "
          "and discharges structural obligations that are necessary "
-         "conditions of the property; see DESIGN.md. Exit 2 + "
-         "ANALYSIS-ERROR means the analysis could not be carried out "
-         "(anchor vanished); it is never a verdict.")
+         "conditions of the property; see DESIGN.md. Before the rules run "
+         "the syntax trees are normalised (noise dropped, control flow and "
+         "negations in one canonical form, constants folded, helpers / named "
+         "constants / temporaries that the reference tree does not know "
+         "inlined, renamed locals mapped back): naming only, nothing is "
+         "executed. Exit 2 + ANALYSIS-ERROR means the analysis could not be "
+         "carried out (anchor vanished, shape outside the known idioms); it "
+         "is never a verdict. The thorough tier adds checker "
+         "self-validation: 174 seeded property-breaking changes must be "
+         "reported, 16 mechanical variants and 87 hand-made "
+         "behaviour-preserving refactorings must stay silent.")
 
 _TRUST = ("Python semantics of the constructs the rules read; the frozen "
           "reference tables named in the evidence file (eBPF ISA encoding, "
@@ -258,12 +266,17 @@ claim("C26",
       "DSL event-list reader + abstract facts per variable (typestate of "
       "the command value)")
 claim("C27",
-      "decision-table extraction of Valve.update: every path stores coil "
-      "(CFG must-pass), unconditional last branch, per-branch stores and "
-      "their value sources (safeState attribute, not a literal), only the "
-      "good branch refreshes the timer, reset, bit variables read as bool. "
-      "Does not replay histories.",
-      "decision-table extraction + CFG must-pass-through")
+      "decision table of Valve.update, extracted semantically: the "
+      "execution condition of every store (coil, target, error, lastGood) is "
+      "folded over switches x coil x safeState x timeout outcome (and any "
+      "further attribute the conditions read) and compared row by row with "
+      "the specification: timer refreshed exactly when the switches confirm "
+      "the coil, coil follows the target while confirmed or within "
+      "movingTime, otherwise error and coil/target from the configured "
+      "safeState attribute; reset stores both fields unconditionally; bit "
+      "variables read as bool. Does not replay histories.",
+      "finite decision-table folding over path conditions + CFG "
+      "must-pass-through")
 claim("C28",
       "branch structure of Serial.update: receive/transmit toggles guarded "
       "and paired with their data, single clearing site, read only when no "
